@@ -35,6 +35,7 @@ type fnExec struct {
 	maxPaths      int
 	paths         int
 	aborted       string
+	clauseHit     map[*Clause]bool // atcall / atgo / atsend clauses that met at least one site
 	entryAlloc    string
 }
 
@@ -47,7 +48,7 @@ func (v *Verifier) verifyFunction(fn *ssa.Function, c *FuncContract) {
 	}
 	v.funcsDone[key] = true
 	c.Used = true
-	x := &fnExec{v: v, fn: fn, c: c, loops: map[*ssa.BasicBlock]*loopInfo{}, params: map[string]Term{}, siteOrd: map[ssa.Instruction]int{}, maxPaths: 4000}
+	x := &fnExec{v: v, fn: fn, c: c, loops: map[*ssa.BasicBlock]*loopInfo{}, params: map[string]Term{}, siteOrd: map[ssa.Instruction]int{}, maxPaths: 4000, clauseHit: map[*Clause]bool{}}
 	if p := fnPkg(fn); p != nil {
 		x.pkg = p.Pkg
 	}
@@ -92,6 +93,22 @@ func (v *Verifier) verifyFunction(fn *ssa.Function, c *FuncContract) {
 		x.assumeRequires(st)
 		x.execBlock(st, fn.Blocks[0], nil)
 	}()
+	// an atcall / atgo / atsend clause whose target the function does not call (send to) any more decides nothing: that is
+	// reported, never silently skipped (e.g. strings.Replace exchanged for strings.ReplaceAll)
+	if x.aborted == "" {
+		for _, group := range []struct {
+			kind string
+			cls  []*Clause
+		}{{"atcall", c.AtCall}, {"atgo", c.AtGo}, {"atsend", c.AtSend}} {
+			for _, ac := range group.cls {
+				if !x.clauseHit[ac] {
+					what := group.kind + " " + ac.Target
+					x.emitFixed("contract-detached."+group.kind+"."+ac.Target+"."+ac.Label, "detached", ac, "false",
+						fmt.Sprintf("clause '%s %s' found no site: the function has no such call / send on any explored path", what, ac.Label))
+				}
+			}
+		}
+	}
 	if x.aborted != "" {
 		o := &Obligation{Name: x.fnName() + ".out-of-subset", Func: x.fnName(), Kind: "subset", Props: c.Props, Goal: "false", Clause: x.aborted, Result: "error", Output: x.aborted}
 		v.obls = append(v.obls, o)
